@@ -1291,4 +1291,56 @@ Proof.
     destruct Hfinal as (s' & x & Ht & He'). rewrite Ht. eexists _, _, _. split; [reflexivity|exact He'].
 Qed.
 
+Theorem try_alloc_array_progress (s : cpool) sp size bytes : CPR s sp -> Ext s -> 0 < size <= cc_max _ s -> size <= bytes ->
+  exists s' r evs, cc_try_alloc_array _ gns gfree gstep bkt gusable s size bytes = Some (s', r, evs) /\ Ext s'.
+Proof.
+  intros Hcpr Hext Hsize Hbytes. pose proof Hext as (_ & _ & _ & H4 & _). destruct (H4 size Hsize) as [Hge Hfind].
+  unfold cc_try_alloc_array.
+  assert (Hg : (size <=? 0) || (cc_max _ s <? size) || (bkt size <? size) || (bytes <? size) = false).
+  { repeat (apply orb_false_iff; split); [apply Z.leb_gt|apply Z.ltb_ge|apply Z.ltb_ge|apply Z.ltb_ge]; lia. }
+  rewrite Hg. set (ns := bkt size) in *. destruct (c_find ns (cc_lists _ s)) as [g|] eqn:Hf; [|contradiction].
+  unfold cc_nfree at 1. rewrite Hf. destruct (0 <? gfree g).
+  - destruct (take_array_progress _ _ _ bytes _ Hcpr Hext Hf) as (s' & res & Ht & He). rewrite Ht. destruct res; eexists _, _, _; (split; [reflexivity|exact He]).
+  - destruct (try_reserve_progress _ _ _ _ Hcpr Hext Hf) as (s1 & ev1 & Htr & Hk & Ha & Hfe & Hm). rewrite Htr.
+    destruct (try_reserve_refines _ _ _ _ _ _ Hcpr (defcap_nonneg _ _ Hcpr) Htr) as (sp1 & _ & Hc1 & _).
+    assert (He1 : Ext s1) by (apply (ext_same s); assumption).
+    destruct (c_find ns (cc_lists _ s1)) as [g1|] eqn:Hf1.
+    2:{ exfalso. assert (Hne : c_find ns (cc_lists _ s) <> None) by (rewrite Hf; discriminate). apply (proj2 (c_find_keys ns _ _ Hk)) in Hne. contradiction. }
+    destruct (take_array_progress _ _ _ bytes _ Hc1 He1 Hf1) as (s' & res & Ht & He). rewrite Ht. destruct res; eexists _, _, _; (split; [reflexivity|exact He]).
+Qed.
+
+(* histories of requests of every kind and releases: nothing is undescribed *)
+Fixpoint request_history_ok (s : cpool) (sp : ast) (os : list coll_op) : Prop :=
+  match os with
+  | [] => True
+  | o :: tl =>
+      match o with
+      | CAllocNode size answer => 0 < size <= cc_max _ s /\ (forall addr, answer = Some addr -> CWB sp addr (ar_next (cc_ar _ s))) /\ ar_next (cc_ar _ s) < 2^64
+      | CTryAllocNode size => 0 < size <= cc_max _ s
+      | CAllocArray size bytes a1 a2 => 0 < size <= cc_max _ s /\ size <= bytes /\ array_answers_ok64 s sp size a1 a2
+      | CTryAllocArray size bytes => 0 < size <= cc_max _ s /\ size <= bytes
+      | CDealloc size bytes p => cc_dealloc _ gns gstep bkt s size bytes p <> None
+      end /\
+      forall s' r evs sp', cc_step _ gns gfree gstep bkt gusable s o = Some (s', r, evs) -> acc_op sp (cc_spec_op bkt o) evs r = Some sp' -> request_history_ok s' sp' tl
+  end.
+
+Theorem request_history_progress : forall os (s : cpool) sp, CPR s sp -> Ext s -> request_history_ok s sp os ->
+  exists s' tr sp', cc_run _ gns gfree gstep bkt gusable s os = Some (s', tr) /\ run sp tr = Some sp' /\ CPR s' sp' /\ Ext s'.
+Proof.
+  induction os as [|o tl IH]; intros s sp Hcpr Hext Hok.
+  - exists s, [], sp. split; [reflexivity|]. split; [reflexivity|]. split; assumption.
+  - destruct Hok as [Ho Hnext].
+    assert (Hstep : exists s1 r evs, cc_step _ gns gfree gstep bkt gusable s o = Some (s1, r, evs) /\ Ext s1 /\ coll_answer_ok s sp o).
+    { destruct o as [size answer|size|size bytes a1 a2|size bytes|size bytes p]; cbn [cc_step coll_answer_ok].
+      - destruct Ho as (Hs & Hwb & Hn). destruct (alloc_node_progress _ _ _ _ Hcpr Hext Hs Hwb Hn) as (s1 & r & evs & H1 & H2). exists s1, r, evs. split; [exact H1|]. split; [exact H2|exact Hwb].
+      - destruct (try_alloc_node_progress _ _ _ Hcpr Hext Ho) as (s1 & r & evs & H1 & H2). exists s1, r, evs. split; [exact H1|]. split; [exact H2|exact I].
+      - destruct Ho as (Hs & Hb & Hans). destruct (alloc_array_progress _ _ _ _ _ _ Hcpr Hext Hs Hb Hans) as (s1 & r & evs & H1 & H2). exists s1, r, evs. split; [exact H1|]. split; [exact H2|].
+        destruct Hans as (Ha1 & _ & Ha2). split; [exact Ha1|]. intros s2 ev1 sp1 Hg He. exact (proj1 (Ha2 s2 ev1 sp1 Hg He)).
+      - destruct Ho as (Hs & Hb). destruct (try_alloc_array_progress _ _ _ _ Hcpr Hext Hs Hb) as (s1 & r & evs & H1 & H2). exists s1, r, evs. split; [exact H1|]. split; [exact H2|exact I].
+      - destruct (cc_dealloc _ gns gstep bkt s size bytes p) as [[[s1 r] evs]|] eqn:Hd; [|contradiction]. exists s1, r, evs. split; [reflexivity|]. split; [exact (dealloc_ext _ _ _ _ _ _ _ Hd Hext)|exact I]. }
+    destruct Hstep as (s1 & r & evs & Hst & Hext1 & Hans). destruct (coll_step_refines _ _ _ _ _ _ Hcpr Hans Hst) as (sp1 & Hacc & Hc1).
+    destruct (IH s1 sp1 Hc1 Hext1 (Hnext _ _ _ _ Hst Hacc)) as (s' & tr & sp' & Hrun & Hr & Hc' & He').
+    exists s', ((cc_spec_op bkt o, evs, r) :: tr), sp'. cbn [cc_run run]. rewrite Hst, Hrun, Hacc. split; [reflexivity|]. split; [exact Hr|]. split; assumption.
+Qed.
+
 End CollProofs.
